@@ -333,6 +333,28 @@ pub fn restrictions(net: &Net, tier: Tier) -> Vec<Restr> {
             out.push(Restr { vehicle_rows: rws, vehicle: Some(v.clone()), ..Default::default() });
         }
     }
+    // several rows on the same edge: every pair of kinds (and one triple), so that a vehicle can exceed one limit of an edge
+    // and meet another; the edge is forbidden as soon as one of its rows is exceeded
+    let mut multi = 0usize;
+    for k1 in 0..6 {
+        for k2 in 0..6 {
+            if k1 == k2 {
+                continue;
+            }
+            for (vi, v) in vehicles.iter().enumerate() {
+                multi += 1;
+                if tier == Tier::Quick && (multi + idx) % 8 != 0 {
+                    continue;
+                }
+                let e = (k1 + k2 + vi + idx) % m;
+                let mut rws = vec![rows(e, k1), rows(e, k2)];
+                if (k1 + k2) % 3 == 0 {
+                    rws.push(rows(e, k1 + k2 + 1));
+                }
+                out.push(Restr { vehicle_rows: rws, vehicle: Some(v.clone()), ..Default::default() });
+            }
+        }
+    }
     // turn restrictions: every single pair of consecutive edges, and some two-pair lists
     let mut pairs = vec![];
     for a in 0..m {
